@@ -52,7 +52,9 @@ class Compiler:
 
         placeholders = [node for node in query.walk() if isinstance(node, ast.Placeholder)]
         if placeholders:
-            names = {placeholder.name for placeholder in placeholders}
+            # Positional placeholders are numbered below: when a parsed statement is
+            # executed again they carry an int, which must not be taken for a name.
+            names = {placeholder.name if isinstance(placeholder.name, str) else '' for placeholder in placeholders}
             if all(names):
                 if not isinstance(parameters, Mapping):
                     raise TypeError('query parameters should be a mapping when using named placeholders')
